@@ -227,6 +227,8 @@ class Check:
         self.violations = []   # (signature, description, replay_path)
         self.known_seen = []   # (signature, description)
         self.notes = []
+        for old in glob.glob(os.path.join(REPLAYS, "%s-%s-*.json" % (pid, tier))):
+            os.remove(old)   # replays of an earlier run of this check
 
     def add_tlc(self, res):
         self.cov["states"] += res.get("distinct", 0)
